@@ -38,7 +38,7 @@ PROPS = {
                 rule='programs over the exact gate family on 3 qubits (direct, aliased and named qubits, macro parameters, '
                      'let-valued parameters, loops, parallel blocks); non-trivial = distinct accepted programs applying >= 2 '
                      'gates with a unitary'),
-    'C13': dict(conf=['par'], owned={'reject_iff_overlap'}, sites=('run',),
+    'C13': dict(conf=['par'], owned={'reject_iff_overlap', 'used_exact_circuit', 'used_exact_statement', 'vector'}, sites=('run', 'used'),
                 rule='parallel blocks with gate / sequential-block branches over 3 qubits named directly, through an alias or a '
                      'macro parameter, idle gates; non-trivial = distinct programs with a parallel block of >= 2 branches'),
     'C15': dict(conf=['gates', 'struct'], owned={'as_str', 'by_str_order', 'views_agree', 'normalised', 'str_int_same'},
@@ -85,6 +85,44 @@ def enumerate_exec(rep, name, consts, wd, invariants, sim=None):
     return out
 
 
+def enumerate_explicit(rep, name, consts, wd):
+    """programs together with their explicit spelling (JaqalExec/ExecEnum!RefExpandSub), for C09"""
+    res = core.run_tlc('ExecEnum', exec_cfg(consts, ('ExplicitSameTree',)).replace('INVARIANT EmitX', 'INVARIANT EmitExplicit'), wd, timeout=3000)
+    rep.add_model_check('ExecEnum[%s] ExplicitSameTree' % name, res)
+    out = []
+    for line in res['out'].splitlines():
+        if line.startswith('<<"XPROG", '):
+            body = line[len('<<"XPROG", '):].rstrip()[:-2]
+            a, b = body.split('", "', 1)
+            pa = json.loads(json.loads(a + '"'))
+            pb = json.loads(json.loads('"' + b))
+            for p in (pa, pb):
+                if p['natives']:
+                    p['natives'] = passes.exact_natives()
+            out.append((pa, pb))
+    if not out:
+        raise core.MachineryError('ExecEnum[%s] emitted nothing\n%s' % (name, res['out'][-1500:]))
+    return out
+
+
+def reverse_par(stmt):
+    """branches of every parallel block in reverse order (an input transformation, for order independence)"""
+    if stmt['k'] == 'loop':
+        return dict(stmt, body=reverse_par(stmt['body']))
+    if stmt['k'] == 'blk':
+        kids = [reverse_par(x) for x in stmt['body']]
+        return dict(stmt, body=kids[::-1] if stmt['par'] else kids)
+    return stmt
+
+
+def used_of(fn):
+    r, e = impl.with_cpu_limit(fn, seconds=3)
+    if e is not None:
+        return {'cls': 'timeout' if isinstance(e, impl.Timeout) else impl.classify_exc(e), 'idxs': []}
+    idxs = sorted(set(i for v in r.values() for i in v))
+    return {'cls': 'ok', 'idxs': [int(i) for i in idxs]}
+
+
 def run_exec(job):
     from jaqalpaq.run import run_jaqal_circuit
     from jaqalpaq.core.result import parse_jaqal_output_list
@@ -99,6 +137,17 @@ def run_exec(job):
     if 'run' in job['sites']:
         obs = execrun.observe(lambda: run_jaqal_circuit(circ), seed=job['seed'])
         cases.append({'id': job['id'] + '/run', 'site': 'run', 'inp': inp, 'text': text, 'obs': obs, 'outs': []})
+    if 'used' in job['sites']:
+        from jaqalpaq.core.algorithm import get_used_qubit_indices
+        cases.append({'id': job['id'] + '/used', 'site': 'used', 'inp': inp, 'text': text, 'obs': dict(execrun.EMPTY_OBS), 'outs': [],
+                      'used_all': used_of(lambda: get_used_qubit_indices(circ)),
+                      'used_stmts': [used_of(lambda s=s: get_used_qubit_indices(s)) for s in circ.body.statements]})
+    if 'explicit' in job['sites']:
+        text2 = render.render_prog(job['prog2'])
+        p2, circ2 = passes.outcome(lambda: passes.parse_prog(job['prog2'], text2))
+        obs = execrun.observe(lambda: run_jaqal_circuit(circ), seed=job['seed'])
+        obs2 = execrun.observe(lambda: run_jaqal_circuit(circ2), seed=job['seed']) if circ2 is not None else dict(execrun.EMPTY_OBS, cls='parsefail')
+        cases.append({'id': job['id'] + '/explicit', 'site': 'explicit', 'inp': inp, 'text': text + ' <=> ' + text2, 'obs': obs, 'obs2': obs2, 'outs': []})
     if 'outparse' in job['sites']:
         rng = random.Random(job['seed'])
         vals = [rng.randrange(2 ** job['nq']) for _ in range(job['nv'])]
@@ -143,6 +192,10 @@ def main(prop, tier):
             for n, it in enumerate(items):
                 jobs.append({'id': '%s/%d' % (name, n), 'prog': it['prog'], 'nv': it['nv'], 'nq': it['nq'],
                              'sites': spec['sites'], 'seed': core.seed() + n})
+                if prop == 'C13' and "'par': True" in repr(it['prog']['body']):
+                    rp = dict(it['prog'], body=[reverse_par(x) for x in it['prog']['body']])
+                    jobs.append({'id': '%s/%d/rev' % (name, n), 'prog': rp, 'nv': it['nv'], 'nq': it['nq'],
+                                 'sites': ('run',), 'seed': core.seed() + n})
     for f in rep.findings:
         if 'witness' in f and 'text' in f['witness']:
             w = f['witness']
@@ -183,3 +236,19 @@ def main(prop, tier):
                         'gate matrices of the exact family: harness/gates.py must agree with JaqalExec!Mat (validated by the vector clause itself)']
     core.cleanup(prop)
     return rep.finish()
+
+
+def explicit_stage(rep, wd, rng, tier):
+    """C09, dynamic half: a program with subcircuit blocks and its explicit spelling (computed by the specification) are
+    executed with the same seed; TLC compares the two recorded executions"""
+    budget = 2500 if tier == 'quick' else 60000
+    pairs = enumerate_explicit(rep, 'explicit', ('H_E', 'M_E1', 'T_E1', 'O_E', 3 if tier == 'quick' else 4, 3), wd)
+    pairs = [p for p in pairs if "'sub': True" in repr(p[0]['body']) + repr(p[0]['macros'])]
+    if len(pairs) > budget:
+        pairs = rng.sample(pairs, budget)
+    jobs = [{'id': 'explicit/%d' % n, 'prog': a, 'prog2': b, 'nv': 0, 'nq': 2, 'sites': ('explicit',), 'seed': n}
+            for n, (a, b) in enumerate(pairs)]
+    recs = [c for cs in core.pool_map(run_exec, jobs, chunksize=50) for c in cs]
+    verdicts, stats = core.validate('Conform_Exec', recs, wd, shard_size=2000)
+    rep.add_validation('explicit', recs, verdicts, stats, owned={'same_as_explicit'})
+    rep.cov['explicit_spelling_pairs'] = len(recs)
